@@ -407,6 +407,9 @@ pub fn number_from_string(string: &str, rule: Rule) -> Result<Number> {
                 let as_hex = i128::from_str_radix(hex_part, 16)?;
                 Number::BigInt(as_hex.to_string())
             } else {
+                // a number that fits no type is refused where it is read, like the other kinds of
+                // literal (the folder does not evaluate every expression: see `a or b`)
+                no_prefix.parse::<i128>()?;
                 Number::BigInt(no_prefix.to_owned())
             }
         }
